@@ -125,6 +125,15 @@ int main(int argc, char** argv)
 			f = [=](double x) { double t = (x - mu) / s; return std::exp(-0.5 * t * t); };
 			F = [=](long double x) { return (long double)s * sqrtl(1.5707963267948966192L) * erfl((x - mu) / (s * 1.41421356237309504880L)); };
 		}
+		// the same integrand in other units (amplitude 1e-45 .. 1e20): every method's accuracy is relative
+		if(ii >= NFIX && g.coin(0.3))
+		{
+			double amp = std::pow(10.0, g.uni(-45, 20));
+			auto f0 = f;
+			auto F0 = F;
+			f		= [f0, amp](double x) { return amp * f0(x); };
+			F		= [F0, amp](long double x) { return (long double)amp * F0(x); };
+		}
 		long double exact = F(b) - F(a);
 		// scale: integral of |f| is at most (b-a) max|f| <= (b-a) e^{lam}...; use (b-a) * max sampled |f|
 		double l1 = 0;	 // L1 norm of the integrand (midpoint rule, 4096 panels): the accuracy of every method is relative to it
